@@ -111,4 +111,21 @@ def RawList.printable : RawList → Bool
   | .cons e es => e.printable && RawList.printable es
 end
 
+mutual
+/-- own fields and functions are not named like a word that opens an atom or a logic operand -/
+def Raw.goodNames : Raw → Bool
+  | .lit .. | .this | .var _ => true
+  | .set vs => RawList.goodNames vs
+  | .range lo hi _ _ => lo.goodNames && hi.goodNames
+  | .quant _ _ d b => d.goodNames && b.goodNames
+  | .un _ a => a.goodNames
+  | .bin _ a b => a.goodNames && b.goodNames
+  | .call f as => isName f && RawList.goodNames as
+  | .field m n => (match m with | .this => isName n | _ => m.goodNames)
+  | .index a i => a.goodNames && i.goodNames
+def RawList.goodNames : RawList → Bool
+  | .nil => true
+  | .cons e es => e.goodNames && RawList.goodNames es
+end
+
 end Hpl
